@@ -140,15 +140,16 @@ def subsets_job(args):
         for i, n in enumerate(names):
             f.write("%s v%d;\n" % (n, i))
             f.write("%s *vp%d, (*vg%d)(%s), va%d[2];\n" % (n, i, i, n, i))
+            f.write("_Alignas(16) %s vl%d; static const %s vq%d;\n" % (n, i, n, i))
             f.write("void f%d(void) { %s * p%d; (%s)0; sizeof(%s); }\n" % (i, n, i, n, n))
     try:
         ast = parse_file(src, use_cpp=True, cpp_args=["-std=" + d, "-nostdinc", "-I" + FAKE])
     except Exception as e:
         return "headers %s (%s) + uses of every type name they define: %s: %s" % (hs[:4], d, type(e).__name__, str(e)[:100])
     decls = {n.name: n for n in ast.ext if isinstance(n, c_ast.Decl) and n.name and n.name.startswith("v")}
-    if len(decls) != 4 * len(names):
+    if len(decls) != 6 * len(names):
         return "headers %s (%s): %d of the %d declarations that use the headers' type names are in the AST" % (
-            hs[:4], d, len(decls), 4 * len(names))
+            hs[:4], d, len(decls), 6 * len(names))
     for i, n in enumerate(names):
         dd = decls.get("v%d" % i)
         if dd is None:
